@@ -119,6 +119,10 @@ def check(P, R, tier):
                         week[name] = (const_of(q["c"][1]), const_of(b))
     R.floor("RF14-negmod", "residue remainders in the business-day closed forms", nmod, 3)
     R.floor("RF1-cover", "weekday switches", ncov, 1)
+    # the business days of a month: a 4 x 7 table spelled as a closed form
+    import lentab
+    nb = lentab.check(P, R, tu, {"bdays"}, rule="RF2-closed")
+    R.floor("RF2-closed", "entries of the business-days-per-month table", nb, 28)
     d, b = week.get("__get_d_equiv"), week.get("__get_b_equiv")
     if d is None or b is None:
         raise AnalysisBroken("RF2-week: the week factors of __get_d_equiv / __get_b_equiv were not recognised (%s, %s)" % (d, b))
